@@ -603,6 +603,8 @@ func (gen *Generator) GenerateInclude(args []Sexp) error {
 			if err != nil {
 				return err
 			}
+			// a file holding only comments has no value of its own either
+			exps = gen.env.FilterArray(exps, RemoveCommentsFilter)
 
 			// the include form has one value, that of the last file:
 			// drop the value of the file before, and give an empty
